@@ -141,6 +141,10 @@ class _SocksMachine(object):
             (version, method) = struct.unpack('BB', reply)
             if version == 5 and method in [0x00, 0x02]:
                 self.version_reply(method)
+                # bytes that arrived in the same segment belong to
+                # the next reply; don't wait for more input
+                if self._data:
+                    self.got_data()
             else:
                 if version != 5:
                     self.version_error(SocksError(
@@ -228,6 +232,12 @@ class _SocksMachine(object):
         # "the I/O-doing" stuff
         self._sender = sender
         self._when_done.fire(sender)
+        # anything that arrived in the same segment as the reply is
+        # already part of the proxied stream
+        if self._data:
+            data = self._data
+            self._data = b''
+            self._sender.dataReceived(data)
 
     @_machine.output()
     def _domain_name_resolved(self, domain):
